@@ -32,7 +32,7 @@ LEVEL_NOTE = "Exceptions are compared by exact type and args; the follow-up call
 TECHNIQUE = "deterministic simulation: exception injection at every call index of every actor, follow-up run equality, line-step interrupts"
 DESIGN_REF = "DESIGN.md 4.11"
 BUDGET = {
-    "quick": {"plans": 400, "wall": 70, "chunk": 4},
+    "quick": {"plans": 500, "wall": 90, "chunk": 4},
     "thorough": {"plans": 20000, "wall": 900, "chunk": 8},
 }
 RULE = (
